@@ -28,7 +28,20 @@ theorem memSame_alloc_free (m : Mem) (h : m.alloc.1 = true) : MemSame m m.alloc.
   exact ⟨by rw [f.1, e.1]; omega, by rw [f.2, e.2.1]⟩
 
 /-! ### expand_capacity -/
-theorem expandCapacity_spec (a : ArraySized) (m : Mem) (h : a.Inv) (hg : a.GrowOk) :
+theorem cap_le_max (a : ArraySized) (h : a.Inv) : a.capacity ≤ CC_MAX_ELEMENTS :=
+  Nat.le_trans (Nat.le_mul_of_pos_right a.capacity h.1) h.2.2.2.2
+
+/-- the capacity asked for is larger than the present one (below the limit) -/
+theorem nextCapacity_gt (a : ArraySized) (h : a.Inv) (hc : a.capacity ≠ CC_MAX_ELEMENTS) :
+    a.capacity < a.nextCapacity := by
+  have := cap_le_max a h
+  unfold nextCapacity
+  dsimp only
+  split
+  · split <;> omega
+  · omega
+
+theorem expandCapacity_spec (a : ArraySized) (m : Mem) (h : a.Inv) :
     ((a.expandCapacity m).1 = .ok ∧ (a.expandCapacity m).2.1.Inv ∧
       (a.expandCapacity m).2.1.abs = a.abs ∧ (a.expandCapacity m).2.1.size = a.size ∧
       (a.expandCapacity m).2.1.dataLen = a.dataLen ∧ (a.expandCapacity m).2.1.grow = a.grow ∧
@@ -36,52 +49,55 @@ theorem expandCapacity_spec (a : ArraySized) (m : Mem) (h : a.Inv) (hg : a.GrowO
     ((a.expandCapacity m).1 = .errAlloc ∧ (a.expandCapacity m).2.1 = a ∧
       MemSame m (a.expandCapacity m).2.2 ∧ m.alloc.1 = false) ∨
     ((a.expandCapacity m).1 = .errMaxCapacity ∧ (a.expandCapacity m).2.1 = a ∧
-      (a.expandCapacity m).2.2 = m ∧ a.capacity = CC_MAX_ELEMENTS) := by
+      (a.expandCapacity m).2.2 = m ∧ a.AtLimit) := by
+  have hh := h
   obtain ⟨hdl, hcap, hsz, hlen, hmax⟩ := h
   unfold expandCapacity
   by_cases hc : a.capacity = CC_MAX_ELEMENTS
-  · right; right; simp [hc]
+  · right; right; simp [hc, AtLimit]
   · rw [if_neg hc]
     dsimp only
-    cases hal : m.alloc.1
-    · right; left
-      have e := Mem.alloc_fst_false m hal
-      simp [MemSame, e]
-    · left
-      simp only [Bool.not_true, Bool.false_eq_true, if_false]
-      generalize hnc : (if a.grow a.capacity ≤ a.capacity then
-          (if a.capacity < CC_MAX_ELEMENTS / 2 then a.capacity + 1 else CC_MAX_ELEMENTS)
-          else a.grow a.capacity) = nc
-      have hnc1 : a.capacity < nc ∧ nc ≤ CC_MAX_ELEMENTS := by
-        have := hg a.capacity
-        subst hnc
-        split
-        · split <;> omega
-        · omega
-      have hsl : a.size * a.dataLen ≤ nc * a.dataLen := slots_le (by omega)
-      have hsl2 : a.size * a.dataLen ≤ a.buf.length := Nat.le_trans (slots_le hsz) hlen
-      have hchk : (decide (a.size * a.dataLen ≤ (fresh (nc * a.dataLen)).length) &&
-          decide (a.size * a.dataLen ≤ a.buf.length)) = true := by
-        simp [fresh, hsl, hsl2]
-      rw [hchk]
-      refine ⟨trivial, ?_, ?_, trivial, trivial, trivial, hnc1.1, ?_, trivial⟩
-      · unfold Inv; dsimp only
-        exact ⟨hdl, by omega, by omega, by simp [fresh], hnc1.2⟩
-      · rw [abs_eq_elems, abs_eq_elems]
-        dsimp only
-        apply elems_congr
-        intro k hk
-        rw [chunkAt_memcpy _ _ a.dataLen 0 0 (a.size * a.dataLen) 0 0 a.size k (by simp) (by simp) rfl
-          (by simp only [fresh, List.length_replicate]; exact slot_le (by omega))]
-        rw [if_pos (by omega)]
-        simp
-      · simpa using memSame_alloc_free m hal
+    have hd0 : (a.dataLen != 0) = true := by simp; omega
+    rw [hd0]
+    simp only [Mem.check_true]
+    by_cases hlim : a.nextCapacity > CC_MAX_ELEMENTS / a.dataLen
+    · right; right
+      rw [if_pos hlim]
+      exact ⟨rfl, rfl, rfl, Or.inr hlim⟩
+    · rw [if_neg hlim]
+      have hgt := nextCapacity_gt a hh hc
+      generalize a.nextCapacity = nc at *
+      have hncm : nc * a.dataLen ≤ CC_MAX_ELEMENTS := (Nat.le_div_iff_mul_le hdl).1 (by omega)
+      rcases Bool.eq_false_or_eq_true m.alloc.1 with hal | hal
+      · left
+        simp only [hal, Bool.not_true, Bool.false_eq_true, if_false]
+        have hsl : a.size * a.dataLen ≤ nc * a.dataLen := slots_le (by omega)
+        have hsl2 : a.size * a.dataLen ≤ a.buf.length := Nat.le_trans (slots_le hsz) hlen
+        have hchk : (decide (a.size * a.dataLen ≤ (fresh (nc * a.dataLen)).length) &&
+            decide (a.size * a.dataLen ≤ a.buf.length)) = true := by
+          simp [fresh, hsl, hsl2]
+        rw [hchk]
+        refine ⟨trivial, ?_, ?_, trivial, trivial, trivial, hgt, ?_, trivial⟩
+        · unfold Inv; dsimp only
+          exact ⟨hdl, by omega, by omega, by simp [fresh], hncm⟩
+        · rw [abs_eq_elems, abs_eq_elems]
+          dsimp only
+          apply elems_congr
+          intro k hk
+          rw [chunkAt_memcpy _ _ a.dataLen 0 0 (a.size * a.dataLen) 0 0 a.size k (by simp) (by simp) rfl
+            (by simp only [fresh, List.length_replicate]; exact slot_le (by omega))]
+          rw [if_pos (by omega)]
+          simp
+        · simpa using memSame_alloc_free m hal
+      · right; left
+        have e := Mem.alloc_fst_false m hal
+        simp [MemSame, e, hal]
 
 /-- the common prologue of `add`/`add_at`: `if (size >= capacity) expand_capacity` -/
 def ensureRoom (a : ArraySized) (m : Mem) : Stat × ArraySized × Mem :=
   if a.size ≥ a.capacity then expandCapacity a m else (.ok, a, m)
 
-theorem ensureRoom_spec (a : ArraySized) (m : Mem) (h : a.Inv) (hg : a.GrowOk) :
+theorem ensureRoom_spec (a : ArraySized) (m : Mem) (h : a.Inv) :
     ((a.ensureRoom m).1 = .ok ∧ (a.ensureRoom m).2.1.Inv ∧
       (a.ensureRoom m).2.1.abs = a.abs ∧ (a.ensureRoom m).2.1.size = a.size ∧
       (a.ensureRoom m).2.1.dataLen = a.dataLen ∧ (a.ensureRoom m).2.1.grow = a.grow ∧
@@ -90,12 +106,12 @@ theorem ensureRoom_spec (a : ArraySized) (m : Mem) (h : a.Inv) (hg : a.GrowOk) :
     (((a.ensureRoom m).1 = .errAlloc ∨ (a.ensureRoom m).1 = .errMaxCapacity) ∧ (a.ensureRoom m).2.1 = a ∧
       MemSame m (a.ensureRoom m).2.2 ∧ a.size = a.capacity ∧
       ((a.ensureRoom m).1 = .errAlloc → m.alloc.1 = false) ∧
-      ((a.ensureRoom m).1 = .errMaxCapacity → a.capacity = CC_MAX_ELEMENTS)) := by
+      ((a.ensureRoom m).1 = .errMaxCapacity → a.AtLimit)) := by
   unfold ensureRoom
   by_cases hfull : a.size ≥ a.capacity
   · rw [if_pos hfull]
     have hsz := h.2.2.1
-    rcases expandCapacity_spec a m h hg with ⟨h1, h2, h3, h4, h5, h6, h7, h8, _⟩ | ⟨h1, h2, h3, h4⟩ | ⟨h1, h2, h3, h4⟩
+    rcases expandCapacity_spec a m h with ⟨h1, h2, h3, h4, h5, h6, h7, h8, _⟩ | ⟨h1, h2, h3, h4⟩ | ⟨h1, h2, h3, h4⟩
     · left; exact ⟨h1, h2, h3, h4, h5, h6, by omega, by omega, h8⟩
     · right; exact ⟨Or.inl h1, h2, h3, by omega, fun _ => h4, (fun hh => by rw [h1] at hh; cases hh)⟩
     · right; exact ⟨Or.inr h1, h2, (by rw [h3]; exact MemSame.refl m), by omega,
@@ -134,7 +150,7 @@ theorem add_eq (a : ArraySized) (e : Buf Nat) (m : Mem) :
 /-- `add`: either the element is appended (and the invariant, element size, growth rule are kept,
 capacity does not shrink, the ledger is balanced, no fault), or the growth was refused and the
 whole array is exactly as before -/
-theorem add_spec (a : ArraySized) (e : Buf Nat) (m : Mem) (h : a.Inv) (hg : a.GrowOk)
+theorem add_spec (a : ArraySized) (e : Buf Nat) (m : Mem) (h : a.Inv)
     (he : e.length = a.dataLen) :
     ((a.add e m).1 = .ok ∧ (a.add e m).2.1.Inv ∧ (a.add e m).2.1.abs = a.abs ++ [e] ∧
       (a.add e m).2.1.dataLen = a.dataLen ∧ (a.add e m).2.1.grow = a.grow ∧
@@ -142,9 +158,9 @@ theorem add_spec (a : ArraySized) (e : Buf Nat) (m : Mem) (h : a.Inv) (hg : a.Gr
     (((a.add e m).1 = .errAlloc ∨ (a.add e m).1 = .errMaxCapacity) ∧ (a.add e m).2.1 = a ∧
       MemSame m (a.add e m).2.2 ∧ a.size = a.capacity ∧
       ((a.add e m).1 = .errAlloc → m.alloc.1 = false) ∧
-      ((a.add e m).1 = .errMaxCapacity → a.capacity = CC_MAX_ELEMENTS)) := by
+      ((a.add e m).1 = .errMaxCapacity → a.AtLimit)) := by
   rw [add_eq]
-  rcases ensureRoom_spec a m h hg with ⟨h1, h2, h3, h4, h5, h6, h7, h8, h9⟩ | ⟨h1, h2, h3, h4, h5, h6⟩
+  rcases ensureRoom_spec a m h with ⟨h1, h2, h3, h4, h5, h6, h7, h8, h9⟩ | ⟨h1, h2, h3, h4, h5, h6⟩
   · left
     generalize a.ensureRoom m = r at *
     obtain ⟨st, a', m'⟩ := r
@@ -215,7 +231,7 @@ theorem addAt_inert (a : ArraySized) (e : Buf Nat) (index : Nat) (m : Mem) (hi :
 
 /-- `add_at` at a position in `[0, size]`: the element is inserted there, or the growth was refused
 and the array is exactly as before -/
-theorem addAt_spec (a : ArraySized) (e : Buf Nat) (index : Nat) (m : Mem) (h : a.Inv) (hg : a.GrowOk)
+theorem addAt_spec (a : ArraySized) (e : Buf Nat) (index : Nat) (m : Mem) (h : a.Inv)
     (he : e.length = a.dataLen) (hi : index ≤ a.size) :
     ((a.addAt e index m).1 = .ok ∧ (a.addAt e index m).2.1.Inv ∧
       (a.addAt e index m).2.1.abs = a.abs.insertIdx index e ∧
@@ -224,7 +240,7 @@ theorem addAt_spec (a : ArraySized) (e : Buf Nat) (index : Nat) (m : Mem) (h : a
     (((a.addAt e index m).1 = .errAlloc ∨ (a.addAt e index m).1 = .errMaxCapacity) ∧
       (a.addAt e index m).2.1 = a ∧ MemSame m (a.addAt e index m).2.2 ∧ a.size = a.capacity ∧
       ((a.addAt e index m).1 = .errAlloc → m.alloc.1 = false) ∧
-      ((a.addAt e index m).1 = .errMaxCapacity → a.capacity = CC_MAX_ELEMENTS)) := by
+      ((a.addAt e index m).1 = .errMaxCapacity → a.AtLimit)) := by
   by_cases hend : index = a.size
   · have : a.addAt e index m = a.add e m := by unfold addAt; rw [if_pos hend]
     rw [this]
@@ -233,10 +249,10 @@ theorem addAt_spec (a : ArraySized) (e : Buf Nat) (index : Nat) (m : Mem) (h : a
       have : a.abs.length = a.size := by simp [abs]
       rw [← this, List.insertIdx_length_self]
     rw [hl]
-    exact add_spec a e m h hg he
+    exact add_spec a e m h he
   · have hlt : index < a.size := by omega
     rw [addAt_eq_mid a e index m hlt]
-    rcases ensureRoom_spec a m h hg with ⟨h1, h2, h3, h4, h5, h6, h7, h8, h9⟩ | ⟨h1, h2, h3, h4, h5, h6⟩
+    rcases ensureRoom_spec a m h with ⟨h1, h2, h3, h4, h5, h6, h7, h8, h9⟩ | ⟨h1, h2, h3, h4, h5, h6⟩
     · left
       generalize a.ensureRoom m = r at *
       obtain ⟨st, a', m'⟩ := r
@@ -489,7 +505,7 @@ theorem wdec_pos (x : Nat) (h : 0 < x) : wdec x = x - 1 := by
   unfold wdec; rw [if_neg (by omega)]
 
 theorem sizeMax_gt (a : ArraySized) (h : a.Inv) : a.size < sizeMax := by
-  have := h.2.2.1; have := h.2.2.2.2; unfold sizeMax; omega
+  have := h.2.2.1; have := cap_le_max a h; unfold sizeMax; omega
 
 /-- `remove_last` on an empty array: `size - 1` wraps to `SIZE_MAX`, which is rejected -/
 theorem removeLast_inert (a : ArraySized) (m : Mem) (h : a.Inv) (h0 : a.size = 0) :
